@@ -45,10 +45,13 @@ def decodeAudience : JIn → Out (List String)
 
 def int64Min : Int := -9223372036854775808
 def int64Max : Int := 9223372036854775807
+/-- the last second (counted from 1970) whose instant a `time.Time` can hold: `time.Unix` counts from year 1 (62135596800 s
+    earlier) in an int64 and wraps around beyond it (finding F-C01a, fixed: `Time.UnmarshalJSON` refuses larger numbers) -/
+def timeMax : Int := 9223372036854775807 - 62135596800
 
 /-- `Time.UnmarshalJSON`; `rfc3339` is the oracle for `time.Parse(time.RFC3339, s)` (unix seconds) -/
 def decodeTime (rfc3339 : String → Option Int) : JIn → Out Int
-  | .atom (.int n) => if int64Min ≤ n ∧ n ≤ int64Max then .val n else .err
+  | .atom (.int n) => if int64Min ≤ n ∧ n ≤ timeMax then .val n else .err
   | .atom (.float t ok) => if ok then .val t else .err
   | .atom (.str s) => match rfc3339 s with | some u => .val u | none => .err
   | .atom .null => .val 0
